@@ -64,74 +64,111 @@ func setCase[T comparable](c *core.Ctx, tname string, univ []T, less func(a, b T
 		return out
 	}
 	// full read of a set through the interface
-	check := func(o *setObj[T], op string) bool {
+	// Full read of a set through the interface. The individual observations are
+	// made in a RANDOM ORDER and, during construction, only a random subset of
+	// them is made: observers of the concurrent set have side effects on its
+	// layout (Slice/Range/Len/String promote the dirty map, Has records misses),
+	// and a fixed order - e.g. always Slice before Len - heals exactly the
+	// layouts in which a broken observer would show.
+	checkSome := func(o *setObj[T], op string, subset bool) bool {
 		c.Count("set_observations", 1)
 		want := sorted(o.m)
-		var got []T
-		if p, pv := core.Catch(func() { got = sortS(o.s.Slice()) }); p {
-			fail(op+":Slice-panic", fmt.Sprintf("%s.Slice() after %s panicked: %v", o.name, op, pv))
-			return false
+		obs := []func() bool{
+			func() bool { // Slice
+				var got []T
+				if p, pv := core.Catch(func() { got = sortS(o.s.Slice()) }); p {
+					fail(op+":Slice-panic", fmt.Sprintf("%s.Slice() after %s panicked: %v", o.name, op, pv))
+					return false
+				}
+				if !eqSlice(got, want) {
+					fail(op+":members["+o.impl+"]", fmt.Sprintf("after %s, %s (%s) holds %v, model %v", op, o.name, o.impl, got, want))
+					return false
+				}
+				return true
+			},
+			func() bool { // Len
+				if n := o.s.Len(); n != len(want) {
+					fail(op+":Len["+o.impl+"]", fmt.Sprintf("after %s, %s.Len()=%d model %d", op, o.name, n, len(want)))
+					return false
+				}
+				return true
+			},
+			func() bool { // Has over the universe
+				for _, v := range univ {
+					if o.s.Has(v) != o.m[v] {
+						fail(op+":Has["+o.impl+"]", fmt.Sprintf("after %s, %s.Has(%v)=%v model %v", op, o.name, v, o.s.Has(v), o.m[v]))
+						return false
+					}
+				}
+				return true
+			},
+			func() bool { // Range: every member exactly once
+				seen := map[T]int{}
+				o.s.Range(func(v T) bool { seen[v]++; return true })
+				if len(seen) != len(want) {
+					fail(op+":Range["+o.impl+"]", fmt.Sprintf("after %s, %s.Range visited %v, model %v", op, o.name, seen, want))
+					return false
+				}
+				for _, v := range want {
+					if seen[v] != 1 {
+						fail(op+":Range["+o.impl+"]", fmt.Sprintf("after %s, %s.Range visited %v %d times", op, o.name, v, seen[v]))
+						return false
+					}
+				}
+				return true
+			},
+			func() bool { // Range early stop
+				if n := len(want); n > 0 {
+					stop := 1 + r.Intn(n)
+					calls := 0
+					o.s.Range(func(T) bool { calls++; return calls < stop })
+					if calls != stop {
+						fail(op+":Range-early-stop["+o.impl+"]", fmt.Sprintf("%s.Range: callback said stop at call %d of %d members, %d calls were made", o.name, stop, n, calls))
+						return false
+					}
+				}
+				return true
+			},
+			func() bool { // String
+				if tok == nil {
+					return true
+				}
+				s := o.s.String()
+				if len(s) < 2 || s[0] != '{' || s[len(s)-1] != '}' {
+					fail(op+":String["+o.impl+"]", fmt.Sprintf("%s.String()=%q", o.name, s))
+					return false
+				}
+				// exactly the members, each once, separated by single blanks (a member may
+				// print as the empty string)
+				toks := strings.Split(s[1:len(s)-1], " ")
+				if len(want) == 0 && len(s) == 2 {
+					toks = nil
+				}
+				sort.Strings(toks)
+				var wt []string
+				for _, v := range want {
+					wt = append(wt, tok(v))
+				}
+				sort.Strings(wt)
+				if !eqSlice(toks, wt) {
+					fail(op+":String["+o.impl+"]", fmt.Sprintf("%s.String()=%q, members %v", o.name, s, want))
+					return false
+				}
+				return true
+			},
 		}
-		if !eqSlice(got, want) {
-			fail(op+":members["+o.impl+"]", fmt.Sprintf("after %s, %s (%s) holds %v, model %v", op, o.name, o.impl, got, want))
-			return false
+		order := r.Perm(len(obs))
+		if subset {
+			order = order[:r.Range(0, len(obs))]
 		}
-		if o.s.Len() != len(want) {
-			fail(op+":Len["+o.impl+"]", fmt.Sprintf("after %s, %s.Len()=%d model %d", op, o.name, o.s.Len(), len(want)))
-			return false
-		}
-		for _, v := range univ {
-			if o.s.Has(v) != o.m[v] {
-				fail(op+":Has["+o.impl+"]", fmt.Sprintf("after %s, %s.Has(%v)=%v model %v", op, o.name, v, o.s.Has(v), o.m[v]))
-				return false
-			}
-		}
-		seen := map[T]int{}
-		o.s.Range(func(v T) bool { seen[v]++; return true })
-		if len(seen) != len(want) {
-			fail(op+":Range["+o.impl+"]", fmt.Sprintf("after %s, %s.Range visited %v, model %v", op, o.name, seen, want))
-			return false
-		}
-		for _, v := range want {
-			if seen[v] != 1 {
-				fail(op+":Range["+o.impl+"]", fmt.Sprintf("after %s, %s.Range visited %v %d times", op, o.name, v, seen[v]))
-				return false
-			}
-		}
-		if n := len(want); n > 0 {
-			stop := 1 + r.Intn(n)
-			calls := 0
-			o.s.Range(func(T) bool { calls++; return calls < stop })
-			if calls != stop {
-				fail(op+":Range-early-stop["+o.impl+"]", fmt.Sprintf("%s.Range: callback said stop at call %d of %d members, %d calls were made", o.name, stop, n, calls))
-				return false
-			}
-		}
-		if tok != nil {
-			s := o.s.String()
-			if len(s) < 2 || s[0] != '{' || s[len(s)-1] != '}' {
-				fail(op+":String["+o.impl+"]", fmt.Sprintf("%s.String()=%q", o.name, s))
-				return false
-			}
-			// exactly the members, each once, separated by single blanks (a member may
-			// print as the empty string)
-			toks := strings.Split(s[1:len(s)-1], " ")
-			if len(want) == 0 && len(s) == 2 {
-				toks = nil
-			}
-			sort.Strings(toks)
-			var wt []string
-			for _, v := range want {
-				wt = append(wt, tok(v))
-			}
-			sort.Strings(wt)
-			if !eqSlice(toks, wt) {
-				fail(op+":String["+o.impl+"]", fmt.Sprintf("%s.String()=%q, members %v", o.name, s, want))
+		for _, k := range order {
+			if !obs[k]() {
 				return false
 			}
 		}
 		return true
 	}
+	check := func(o *setObj[T], op string) bool { return checkSome(o, op, false) }
 	newEmpty := func(impl, name string) *setObj[T] {
 		o := &setObj[T]{m: map[T]bool{}, impl: impl, name: name}
 		if impl == "maps" {
@@ -250,7 +287,7 @@ func setCase[T comparable](c *core.Ctx, tname string, univ []T, less func(a, b T
 				}
 				c.Count("clone", 1)
 			}
-			if !check(o, "construction-step") {
+			if !checkSome(o, "construction-step", true) {
 				return nil
 			}
 		}
